@@ -2309,6 +2309,7 @@ class QuicConnection:
             )
 
         # process data
+        was_finished = stream.receiver.is_finished
         try:
             event = stream.receiver.handle_frame(frame)
         except FinalSizeError as exc:
@@ -2317,7 +2318,9 @@ class QuicConnection:
                 frame_type=frame_type,
                 reason_phrase=str(exc),
             )
-        if event is not None:
+        # Once the receiving part has finished (end of stream reported, or stream
+        # reset), duplicated or late frames must not be reported again.
+        if event is not None and not was_finished:
             self._events.append(event)
         self._local_max_data.used += newly_received
 
